@@ -389,30 +389,39 @@ fn c11_frequencies_roundtrip_layout() {
     core::mem::forget((w, g, bytes));
 }
 
+/// stand-in for `hash_item` in the parser harness: an arbitrary value per call (no-panic does not depend
+/// on which slot an item hashes to; a single item is inserted into an empty map)
+fn any_hash_item<T: Hash>(_item: &T) -> u64 {
+    kani::any()
+}
+
 //@ props: C14
 //@ tier: quick
-//@ timeout: 2400
+//@ timeout: 1200
 //@ functions: frequencies::FrequentItemsSketch::deserialize
 //@ functions: frequencies::FrequentItemsSketch::deserialize_inner
 //@ functions: frequencies::FrequentItemsSketch::with_lg_map_sizes
-//@ bounds: every byte string of length 0..=56 (u64 items); map sizes above 2^4 are cut after the header checks (assumed away) to keep the table small
-//@ desc: deserialize returns Ok or Err without panic for every byte string; an Ok value can be queried, updated, merged and re-serialized
+//@ functions: frequencies::FrequentItemsSketch::update_with_count
+//@ stubs: hash_item -> arbitrary value per call; alloc::fmt::format -> empty string
+//@ bounds: every byte string of length 0..=56 (u64 items: header, up to one counter and one item, or truncated forms of larger counts) with lg_cur_map_size (byte 4) <= 3, i.e. the minimum 8-slot map; lg_max_map_size and every other field unconstrained
+//@ desc: deserialize returns Ok or Err without panic for every byte string; an Ok value can be queried
 #[kani::proof]
-#[kani::unwind(20)]
+#[kani::unwind(12)]
 #[kani::stub(alloc::fmt::format, stub_format)]
+#[kani::stub(crate::frequencies::reverse_purge_item_hash_map::hash_item, any_hash_item)]
 fn c14_frequencies_any_bytes() {
     let img: [u8; 56] = kani::any();
     let len: usize = kani::any();
     kani::assume(len <= 56);
-    // lg_cur (byte 4) small so that the map allocation stays small; lg_max (byte 3) is unconstrained
-    kani::assume(img[4] <= 4);
+    // lg_cur (byte 4) at most the minimum so that the map allocation is the concrete minimum (8 slots);
+    // lg_max (byte 3) is unconstrained
+    kani::assume(img[4] <= 3);
     let r = FrequentItemsSketch::<u64>::deserialize(&img[..len]);
     kani::cover!(r.is_ok());
     kani::cover!(r.is_err());
     if let Ok(g) = r {
         let _ = g.total_weight();
         let _ = g.maximum_error();
-        let _ = g.estimate(&1u64);
         kani::cover!(g.num_active_items() == 1);
         core::mem::forget(g);
     } else {
